@@ -406,6 +406,18 @@ pub struct Call {
     pub answer: String,
 }
 
+/// Something another peer does on the bus IMMEDIATELY after the bus has answered our
+/// `RequestName(name)` with one of `on_codes` — before the bus looks at any further call of ours
+/// (so the driver signals it causes travel right behind that reply).
+#[derive(Clone, Debug, PartialEq, Eq)]
+pub struct Armed {
+    pub name: String,
+    pub on_codes: Vec<u32>,
+    pub peer: String,
+    /// `Some(flags)` = the peer calls RequestName(name, flags); `None` = it calls ReleaseName(name).
+    pub peer_request_flags: Option<u32>,
+}
+
 #[derive(PartialEq, Eq, Debug)]
 enum Phase {
     Sasl,
@@ -422,6 +434,10 @@ pub struct Bus {
     pub calls: Vec<Call>,
     /// `AddMatch` of a rule string that was already registered (rule, count after).
     pub double_adds: Vec<(String, usize)>,
+    /// Armed peer action (see `Armed`); disarmed when it fires.
+    pub armed: Option<Armed>,
+    /// How often an armed action has fired.
+    pub armed_fired: usize,
     /// Members whose calls are parked instead of answered (answered by `release_held`).
     pub hold: Vec<String>,
     held: VecDeque<Message>,
@@ -450,6 +466,8 @@ impl Bus {
             consumed: 0,
             calls: vec![],
             double_adds: vec![],
+            armed: None,
+            armed_fired: 0,
             hold: vec![],
             held: VecDeque::new(),
             sent: vec![],
@@ -792,9 +810,24 @@ impl Bus {
                 Ok((name, flags)) => {
                     let (code, emits) = self.names.request_name(US, &name, flags);
                     self.emit(&emits);
-                    call.args = vec![name, flags.to_string()];
+                    call.args = vec![name.clone(), flags.to_string()];
                     call.answer = format!("ok:{code}");
                     self.reply(&m, &(code,), &format!("RequestName={code}"));
+                    if let Some(a) = self.armed.take() {
+                        if a.name == name && a.on_codes.contains(&code) {
+                            self.armed_fired += 1;
+                            match a.peer_request_flags {
+                                Some(f) => {
+                                    self.peer_request_name(&a.peer, &name, f);
+                                }
+                                None => {
+                                    self.peer_release_name(&a.peer, &name);
+                                }
+                            }
+                        } else {
+                            self.armed = Some(a);
+                        }
+                    }
                 }
                 Err(e) => self.errors.push(format!("RequestName body: {e}")),
             },
